@@ -2,19 +2,31 @@
 //
 // Config   [neg abs ninit]  NewConcurrentQueue(maxConcurrency = neg==1 ? -abs : abs, ninit initial jobs)
 // Events   [1 n]    Enqueue(n jobs) in a new actor (parks at the HoldLock entry)
-//          [2 k]    WaitIdle(ctx, errCh) in a new actor; k=1: errCh is a buffered channel, k=0: nil
-//          [3 k]    WatchState(ctx, nil, cb) in a new actor; k=1: cb non-nil, k=0: nil
-//          [4 a]    API actor a (parked at a gate) runs its critical section
-//          [5 w]    worker w (the executeJob goroutine whose first job was job w, parked at its gate) runs its section
-//          [6 w]    the job function worker w is in returns
-//          [7 a o]  the WatchState callback of actor a returns: 0 (true,nil) 1 (false,nil) 2 (false,err) 3 (true,err)
-//          [8 a]    cancel the context of actor a
-//          [9 a v]  send v (0 nil, 1 an error) on a's errCh         [10 a]  close a's errCh
+//
+//	[2 k]    WaitIdle(ctx, errCh) in a new actor; k=1: errCh is a buffered channel, k=0: nil
+//	[3 k]    WatchState(ctx, nil, cb) in a new actor; k=1: cb non-nil, k=0: nil
+//	[4 a]    API actor a (parked at a gate) runs its critical section
+//	[5 w]    worker w (the executeJob goroutine whose first job was job w, parked at its gate) runs its section
+//	[6 w]    the job function worker w is in returns
+//	[7 a o]  the WatchState callback of actor a returns: 0 (true,nil) 1 (false,nil) 2 (false,err) 3 (true,err)
+//	[8 a]    cancel the context of actor a
+//	[9 a v]  send v (0 nil, 1 an error) on a's errCh         [10 a]  close a's errCh
+//
 // Observation after every event:
-//          [na nj] ++ per API actor [code x y] ++ per job [entered returned worker]
-//          code 1 at a gate, 2 blocked, 3 inside the WatchState callback with arguments (x,y), 4 returned nil,
-//               5 returned context.Canceled, 6 returned another error, 7 Enqueue returned (x,y), 9 panicked
-//          worker (goroutine spawned for this job): 0 none, 1 at its gate, 8 returned, 10+j inside the function of job j
+//
+//	[na nj] ++ per API actor [code x y] ++ per job [entered returned worker]
+//	code 1 at a gate, 2 blocked, 3 inside the WatchState callback with arguments (x,y), 4 returned nil,
+//	     5 returned context.Canceled, 6 returned the error it was given (errCh value / callback error),
+//	     7 Enqueue returned (x,y), 9 panicked, 11 returned context.DeadlineExceeded, 12 returned the cause of
+//	     its context (hctx.ErrCause), 13 returned any other error
+//
+// Contexts: the n-th context-taking call of a history (WaitIdle and WatchState, counted together from 1) receives
+// hctx.Flavour(n): n%4 == 1 a context that ends like a deadline (Err() == DeadlineExceeded), n%4 == 3 one cancelled
+// with a cause, otherwise a plain WithCancel context.  The library returns the literal context.Canceled for all of
+// them (so the flavour is not part of the event); code that returns ctx.Err() / context.Cause(ctx) instead shows as
+// 11 / 12.
+//
+//	worker (goroutine spawned for this job): 0 none, 1 at its gate, 8 returned, 10+j inside the function of job j
 //
 // Job ids are positions in the global enqueue order: the jobs of an Enqueue call receive their ids when the
 // controller lets its critical section run (initial elements first).
@@ -33,6 +45,7 @@ import (
 	"github.com/aperturerobotics/util/broadcast"
 	"github.com/aperturerobotics/util/conc"
 	"verif/harness/ctl"
+	"verif/harness/hctx"
 	"verif/harness/hist"
 )
 
@@ -58,15 +71,17 @@ type wdata struct {
 }
 
 type adata struct {
-	cancel    context.CancelFunc
-	cancelled bool
-	errCh     chan error
-	eclosed   bool
-	batch     []*job
-	q, r      int // Enqueue result / callback arguments
-	outcome   uint64
-	sectAtCb  int
-	ncb       int
+	cancel     func() // ends the context (in the way of its flavour)
+	flavour    int    // 0 plain, 1 deadline-like, 2 cancelled with a cause
+	cancelled  bool
+	retCounted bool
+	errCh      chan error
+	eclosed    bool
+	batch      []*job
+	q, r       int // Enqueue result / callback arguments
+	outcome    uint64
+	sectAtCb   int
+	ncb        int
 }
 
 type sys struct {
@@ -80,6 +95,19 @@ type sys struct {
 	tearing atomic.Bool
 	nsect   int
 	limit   int
+	nctx    int // context-taking calls so far
+}
+
+var flavourNames = [3]string{"plain", "deadline_like", "with_cause"}
+
+// newCtx returns the context of the next context-taking call: the flavour is a function of the number of such calls
+// made so far in this history (replays reproduce it).
+func (s *sys) newCtx(d *adata) context.Context {
+	s.nctx++
+	ctx, end, kind := hctx.Flavour(context.Background(), s.nctx)
+	d.cancel, d.flavour = end, kind
+	s.w.Count("sit.ctx_flavour."+flavourNames[kind], 1)
+	return ctx
 }
 
 func (s *sys) newJob() *job {
@@ -153,8 +181,14 @@ func resCode(err error) int {
 		return 4
 	case err == context.Canceled:
 		return 5
-	default:
+	case err == errUser:
 		return 6
+	case err == context.DeadlineExceeded:
+		return 11
+	case err == hctx.ErrCause:
+		return 12
+	default:
+		return 13
 	}
 }
 
@@ -227,8 +261,8 @@ func (s *sys) exec(ev []uint64) (obs []uint64, ok bool) {
 		})
 		synctest.Wait()
 	case ev[0] == 2 && len(ev) == 2:
-		ctx, cancel := context.WithCancel(context.Background())
-		d := &adata{cancel: cancel}
+		d := &adata{}
+		ctx := s.newCtx(d)
 		var errCh <-chan error
 		if ev[1] == 1 {
 			d.errCh = make(chan error, 16)
@@ -242,8 +276,8 @@ func (s *sys) exec(ev []uint64) (obs []uint64, ok bool) {
 		})
 		synctest.Wait()
 	case ev[0] == 3 && len(ev) == 2:
-		ctx, cancel := context.WithCancel(context.Background())
-		d := &adata{cancel: cancel}
+		d := &adata{}
+		ctx := s.newCtx(d)
 		a := s.c.NewActor(kWatch)
 		a.Data = d
 		s.api = append(s.api, a)
@@ -326,8 +360,13 @@ func (s *sys) exec(ev []uint64) (obs []uint64, ok bool) {
 		}
 		d := a.Data.(*adata)
 		d.cancelled = true
+		blocked := !a.Done() && !a.Parked() && a.InUser() == 0
 		d.cancel()
 		synctest.Wait()
+		if blocked && a.Done() {
+			// the call was blocked in its select and left it because its context ended: what did it return
+			s.w.Count(fmt.Sprintf("sit.ctx_ended_while_blocked.%s.returned_code_%d", flavourNames[d.flavour], a.Res), 1)
+		}
 	case ev[0] == 9 && len(ev) == 3:
 		a := apiAt(ev[1])
 		if a == nil || a.Kind != kIdle || ev[2] > 1 {
@@ -466,6 +505,14 @@ func (s *sys) count(ev []uint64, obs []uint64) {
 		s.w.Count(fmt.Sprintf("ev.enqueue.n%d", ev[1]), 1)
 	}
 	na, nj := int(obs[0]), int(obs[1])
+	for i := 0; i < na && i < len(s.api); i++ {
+		// every return of a context-taking call whose context has ended, by flavour and returned code (counted once)
+		a := s.api[i]
+		if d := a.Data.(*adata); a.Kind != kEnq && d.cancelled && !d.retCounted && a.Done() {
+			d.retCounted = true
+			s.w.Count(fmt.Sprintf("obs.returned_after_ctx_end.%s.code_%d", flavourNames[d.flavour], obs[2+3*i]), 1)
+		}
+	}
 	quiet := true
 	exec, blockedIdle, gatesN, queuedPos, allFin := 0, 0, 0, 0, true
 	for i := 0; i < na; i++ {
